@@ -40,12 +40,15 @@ class C03(Spec):
     ]
     ASSUMPTIONS = ['trial counts >= 1, every stimulus has at least one sample, delays >= 0']
     RULE = ('queues of 1-7 stimuli with unequal trial counts on every policy and option (keep_complete_waveforms, '
-            'seed, group_size 1..n+1 incl. non-divisors), drained in random chunkings and popped again afterwards; '
+            'seed, group_size 1..n+1 incl. non-divisors, n+5 and 1000; keep_complete_waveforms=False also on the blocked-random '
+            'class), drained in random chunkings and popped again afterwards; half of the random cases re-spelled by the '
+            'caller (see C02: constructor routes, extend() broadcasting, argument types, metadata, explicit durations, '
+            'clone, bystander queue, meddling caller); a scale stream (2000-3001 trials of one stimulus, 40 stimuli); '
             'thorough adds every (policy/option, <=4 stimuli, trials<=3) combination. Non-trivial = >= 2 stimuli with '
             'unequal trial counts or a partial last group.')
     exhaustive_note = {
-        'quick': 'every policy/option x <= 3 stimuli x trials in {1,2} (lengths/delays fixed)',
-        'thorough': 'every policy/option (group sizes 1..n+1) x <= 4 stimuli x trials in {1,2,3} (lengths/delays fixed)',
+        'quick': 'every policy/option (group sizes 1..n+1, n+5) x <= 3 stimuli x trials in {1,2} (lengths/delays fixed)',
+        'thorough': 'every policy/option (group sizes 1..n+1, n+5) x <= 4 stimuli x trials in {1,2,3} (lengths/delays fixed)',
     }
     SEARCH_SECONDS = {'quick': 20, 'thorough': 240}
 
